@@ -168,11 +168,18 @@ namespace awkward {
         if (t->istuple()) {
           return false;
         }
-        for (auto key : keys()) {
-          if (!t->haskey(key)) {
+        util::RecordLookupPtr theirs = t->recordlookup();
+        for (int64_t i = 0;  i < numfields();  i++) {
+          int64_t j = 0;
+          for (;  j < numfields();  j++) {
+            if (recordlookup_.get()->at((size_t)i) == theirs.get()->at((size_t)j)) {
+              break;
+            }
+          }
+          if (j == numfields()) {
             return false;
           }
-          if (!field(key).get()->equal(t->field(key), check_parameters)) {
+          if (!field(i).get()->equal(t->field(j), check_parameters)) {
             return false;
           }
         }
